@@ -39,13 +39,17 @@ def ns_resolve(spelled, ns):
     return '.'.join(ns[:len(ns) - (dots - 1)] + [rest])
 
 
-def resolve_expr(e, ns):
-    """source expression -> resolved expression (names replaced by the dotted names they stand for)"""
+def resolve_expr(e, ns, consts=None):
+    """source expression -> resolved expression (names replaced by the dotted names they stand for; a name that is a
+    constant `X = value` defined earlier is replaced by its value)"""
     if isinstance(e, int):
         return e
     if e[0] == 'n':
-        return ns_resolve(e[1], ns)
-    return [e[1], [resolve_expr(a, ns) for a in e[2]]]
+        full = ns_resolve(e[1], ns)
+        if consts and full in consts:
+            return consts[full]
+        return full
+    return [e[1], [resolve_expr(a, ns, consts) for a in e[2]]]
 
 
 def fresh_canon(path, local):
@@ -116,24 +120,29 @@ def bind_macro(m, args, path, fresh):
 
 def inline_ops(prog, fuel, sg, path, ops, ns, fresh, out, budget, k0=0):
     """ops: list of source statements of one body, written inside namespace `ns`"""
+    consts = getattr(prog, 'consts', None)
+
+    def rx(e):
+        return resolve_expr(e, ns, consts)
+
     for k, s in enumerate(ops, k0):
         t = s['t']
         if len(out) > budget[0]:
             raise InlineStuck('too large')
         if t == 'fj':
-            f = 0 if s['f'] is None else resolve_expr(s['f'], ns)
-            j = '$' if s['j'] is None else resolve_expr(s['j'], ns)
+            f = 0 if s['f'] is None else rx(s['f'])
+            j = '$' if s['j'] is None else rx(s['j'])
             out.append({'t': 'FlipJump', 'flip': subst(sg, f), 'jump': subst(sg, j)})
         elif t == 'wflip':
-            r = '$' if s['r'] is None else resolve_expr(s['r'], ns)
-            out.append({'t': 'WordFlip', 'addr': subst(sg, resolve_expr(s['a'], ns)),
-                        'value': subst(sg, resolve_expr(s['v'], ns)), 'ret': subst(sg, r)})
+            r = '$' if s['r'] is None else rx(s['r'])
+            out.append({'t': 'WordFlip', 'addr': subst(sg, rx(s['a'])),
+                        'value': subst(sg, rx(s['v'])), 'ret': subst(sg, r)})
         elif t == 'pad':
-            out.append({'t': 'Pad', 'align': subst(sg, resolve_expr(s['e'], ns))})
+            out.append({'t': 'Pad', 'align': subst(sg, rx(s['e']))})
         elif t == 'segment':
-            out.append({'t': 'Segment', 'start': subst(sg, resolve_expr(s['e'], ns))})
+            out.append({'t': 'Segment', 'start': subst(sg, rx(s['e']))})
         elif t == 'reserve':
-            out.append({'t': 'Reserve', 'size': subst(sg, resolve_expr(s['e'], ns))})
+            out.append({'t': 'Reserve', 'size': subst(sg, rx(s['e']))})
         elif t == 'label':
             name = '.'.join(ns + [s['name']])          # a declared label lives in the current namespace
             if name in sg:
@@ -143,13 +152,13 @@ def inline_ops(prog, fuel, sg, path, ops, ns, fresh, out, budget, k0=0):
                 name = v
             out.append({'t': 'Label', 'name': name})
         elif t == 'call':
-            args = [subst(sg, resolve_expr(a, ns)) for a in s['args']]
+            args = [subst(sg, rx(a)) for a in s['args']]
             inline_call(prog, fuel, (ns_resolve(s['name'], ns), len(args)), args, path + ((k, None),), fresh, out, budget)
         elif t == 'rep':
-            n = const_value(subst(sg, resolve_expr(s['times'], ns)))
+            n = const_value(subst(sg, rx(s['times'])))
             if n is None:
                 raise InlineStuck('rep count is not a constant expression')
-            args0 = [resolve_expr(a, ns) for a in s['args']]
+            args0 = [rx(a) for a in s['args']]
             for i in range(max(n, 0)):
                 sgi = dict(sg)
                 sgi[s['iter']] = i                      # the innermost binder wins
